@@ -520,6 +520,7 @@ class OrRestriction(base):
                 node_type=self.type,
             ).iter_dnf_solutions():
                 yield x
+            return
         if not self.restrictions:
             yield []
             return
